@@ -119,6 +119,31 @@ def check_props(props_rel, timeout=600):
     return {"ok": ok, "log": out, "theorems": thms, "printed": printed, "assumptions": assumptions}
 
 
+def coqchk(props_rel, timeout=2400):
+    """Re-check the compiled Props module and everything it depends on with the independent checker
+    (`coqchk -o`), after building its .vo.  Returns dict(ok, axioms=[...], log, seconds)."""
+    t0 = time.time()
+    vo = props_rel[:-2] + ".vo"
+    ok_m, log_m = make([vo])
+    if not ok_m:
+        return {"ok": False, "axioms": None, "log": log_m[-1500:], "seconds": round(time.time() - t0, 1)}
+    logical = "AK." + props_rel[:-2].replace("/", ".")
+    p = subprocess.run(["timeout", str(timeout), "coqchk", "-silent", "-o", "-R", COQ, "AK", logical],
+                       cwd=COQ, stdout=subprocess.PIPE, stderr=subprocess.STDOUT, text=True)
+    out = p.stdout
+    m = re.search(r"\* Axioms:(.*?)\n\s*\n\* Constants/Inductives relying on type-in-type:(.*?)\n\s*\n"
+                  r"\* Constants/Inductives relying on unsafe \(co\)fixpoints:(.*?)\n\s*\n"
+                  r"\* Inductives whose positivity is assumed:(.*?)\n", out, re.S)
+    axioms = None
+    clean = False
+    if m:
+        parts = [x.strip() for x in m.groups()]
+        axioms = [] if parts[0] == "<none>" else [l.strip() for l in parts[0].split("\n") if l.strip()]
+        clean = all(x == "<none>" for x in parts[1:])
+    return {"ok": p.returncode == 0 and m is not None and clean, "axioms": axioms, "log": out[-1500:],
+            "seconds": round(time.time() - t0, 1)}
+
+
 def grep_forbidden(rel_dirs):
     """Scan .v sources (comments stripped) for forbidden vernacular. -> list of 'file:line: text'"""
     hits = []
